@@ -289,14 +289,23 @@ Qed.
 Lemma name_ok_root : name_ok [].
 Proof. split; [constructor|cbn; lia]. Qed.
 
-Lemma compose_opt_ok c udp opts w w' :
-  WG c ok12 w -> 12 <= mlen (w_buf w) -> udp < 65536 -> compose_opt c udp opts w = WOk w' ->
-  WG c ok12 w' /\ RAt (w_buf w') (mlen (w_buf w)) (opt_record udp opts) (mlen (w_buf w')) /\
+Lemma be32_opt_ttl e v d : e < 256 -> v < 256 -> d < 65536 ->
+  be32 (e * 16777216 + v * 65536 + d) = be16 (e * 256 + v) ++ be16 d.
+Proof. intros. unfold be32, be16. cbn [app]. f_equal; [|f_equal; [|f_equal; [|f_equal]]]; lia. Qed.
+
+Definition wf_oh (oh : opt_hdr) : Prop := oh_udp oh < 65536 /\ oh_ver oh < 256.
+
+Lemma compose_opt_ok c oh opts w w' :
+  WG c ok12 w -> 12 <= mlen (w_buf w) -> wf_oh oh -> compose_opt c oh opts w = WOk w' ->
+  WG c ok12 w' /\ RAt (w_buf w') (mlen (w_buf w)) (opt_record oh opts) (mlen (w_buf w')) /\
   exists sfx, w_buf w' = w_buf w ++ sfx.
 Proof.
-  intros HW L Hu H. unfold compose_opt in H.
+  intros HW L (Hu & Hver) H. unfold compose_opt in H.
   set (st := mlen (w_buf w)) in *.
   set (old := fun i => ok12 i /\ i < st).
+  set (x := oh_udp oh) in *. set (y := oh_ext oh * 256 + oh_ver oh) in *. set (z := if oh_do oh then 32768 else 0) in *.
+  assert (Hext : oh_ext oh < 256) by (unfold oh_ext; destruct (oh_rc oh); lia).
+  assert (Hz : z < 65536) by (subst z; destruct (oh_do oh); lia).
   assert (HWo : WG c old w).
   { destruct HW as (TB & SI & CI). split; [exact TB|]. split; [exact SI|]. apply CInv_below in CI. exact CI. }
   destruct (append_slice c opt_header_default w) as [w1|w1| |] eqn:E1; cbn [wbind] in H; try discriminate.
@@ -306,60 +315,76 @@ Proof.
   assert (B2' : w_buf w2 = w_buf w ++ [0; 0; 41; 0; 0; 0; 0; 0; 0; 0; 0]).
   { rewrite B2, B1, <- app_assoc. reflexivity. }
   assert (L2 : mlen (w_buf w2) = st + 11) by (rewrite B2', mlen_app; reflexivity).
-  destruct (WG_patch c old w2 (st + 3) udp HW2 ltac:(lia)) as (HW3 & _).
-  { unfold old. intros; lia. }
-  set (w3 := set_buf w2 (patch16 (st + 3) udp (w_buf w2))) in *.
-  assert (B3 : w_buf w3 = w_buf w ++ [0; 0; 41; udp / 256; udp mod 256; 0; 0; 0; 0; 0; 0]).
-  { subst w3. unfold set_buf; cbn [w_buf]. rewrite B2'. rewrite patch16_app by (fold st; change (mlen [0; 0; 41; 0; 0; 0; 0; 0; 0; 0; 0]) with 11; lia).
+  assert (Hold : forall p, st <= p -> forall i, old i -> i < p \/ p + 2 <= i) by (unfold old; intros; lia).
+  destruct (WG_patch c old w2 (st + 3) x HW2 ltac:(lia) (Hold (st + 3) ltac:(lia))) as (HWa & _).
+  set (wa := set_buf w2 (patch16 (st + 3) x (w_buf w2))) in *.
+  assert (Ba : w_buf wa = w_buf w ++ [0; 0; 41; x / 256; x mod 256; 0; 0; 0; 0; 0; 0]).
+  { subst wa. unfold set_buf; cbn [w_buf]. rewrite B2'. rewrite patch16_app by (fold st; change (mlen [0; 0; 41; 0; 0; 0; 0; 0; 0; 0; 0]) with 11; lia).
     fold st. replace (st + 3 - st) with 3 by lia. reflexivity. }
+  assert (La : mlen (w_buf wa) = st + 11) by (rewrite Ba, mlen_app; reflexivity).
+  destruct (WG_patch c old wa (st + 5) y HWa ltac:(lia) (Hold (st + 5) ltac:(lia))) as (HWb & _).
+  set (wb := set_buf wa (patch16 (st + 5) y (w_buf wa))) in *.
+  assert (Bb : w_buf wb = w_buf w ++ [0; 0; 41; x / 256; x mod 256; y / 256; y mod 256; 0; 0; 0; 0]).
+  { subst wb. unfold set_buf; cbn [w_buf]. rewrite Ba. rewrite patch16_app by (fold st; change (mlen [0; 0; 41; x / 256; x mod 256; 0; 0; 0; 0; 0; 0]) with 11; lia).
+    fold st. replace (st + 5 - st) with 5 by lia. reflexivity. }
+  assert (Lb : mlen (w_buf wb) = st + 11) by (rewrite Bb, mlen_app; reflexivity).
+  destruct (WG_patch c old wb (st + 7) z HWb ltac:(lia) (Hold (st + 7) ltac:(lia))) as (HW3 & _).
+  set (w3 := set_buf wb (patch16 (st + 7) z (w_buf wb))) in *.
+  assert (B3 : w_buf w3 = w_buf w ++ [0; 0; 41; x / 256; x mod 256; y / 256; y mod 256; z / 256; z mod 256; 0; 0]).
+  { subst w3. unfold set_buf; cbn [w_buf]. rewrite Bb. rewrite patch16_app by (fold st; change (mlen [0; 0; 41; x / 256; x mod 256; y / 256; y mod 256; 0; 0; 0; 0]) with 11; lia).
+    fold st. replace (st + 7 - st) with 7 by lia. reflexivity. }
+  replace (set_buf w2 (patch16 (st + 7) z (patch16 (st + 5) y (patch16 (st + 3) x (w_buf w2))))) with w3 in H
+    by (subst w3 wb wa; unfold set_buf; cbn [w_buf w_shim w_static w_tree w_hash]; reflexivity).
   destruct (compose_opts c opts w3) as [w4|w4| |] eqn:E4; try discriminate.
   - destruct (compose_opts_ok c old opts w3 w4 HW3 E4) as (HW4 & B4).
     destruct (N.leb_spec (mlen (w_buf w4) - mlen (w_buf w2)) rdlen_max) as [LL|LL];
       [|destruct (truncate c (mlen (w_buf w2)) w4); discriminate].
     injection H as <-. unfold rdlen_max in LL.
     assert (L4 : mlen (w_buf w4) = st + 11 + mlen (opts_bytes opts)).
-    { rewrite B4, B3, !mlen_app. change (mlen [0; 0; 41; udp / 256; udp mod 256; 0; 0; 0; 0; 0; 0]) with 11. fold st. lia. }
+    { rewrite B4, B3, !mlen_app. change (mlen [0; 0; 41; x / 256; x mod 256; y / 256; y mod 256; z / 256; z mod 256; 0; 0]) with 11. fold st. lia. }
     replace (mlen (w_buf w2) - 2) with (st + 9) by lia.
     replace (mlen (w_buf w4) - mlen (w_buf w2)) with (mlen (opts_bytes opts)) in * by lia.
     set (len := mlen (opts_bytes opts)) in *.
-    destruct (WG_patch c old w4 (st + 9) len HW4 ltac:(lia)) as (HW5 & _).
-    { unfold old. intros; lia. }
+    destruct (WG_patch c old w4 (st + 9) len HW4 ltac:(lia) (Hold (st + 9) ltac:(lia))) as (HW5 & _).
     assert (B5 : patch16 (st + 9) len (w_buf w4) =
-                 w_buf w ++ [0] ++ (be16 41 ++ be16 udp ++ be32 0 ++ be16 len) ++ opts_bytes opts).
+                 w_buf w ++ [0] ++ (be16 41 ++ be16 x ++ (be16 y ++ be16 z) ++ be16 len) ++ opts_bytes opts).
     { rewrite B4, B3, <- app_assoc.
-      rewrite patch16_app by (fold st; rewrite ?mlen_app; change (mlen [0; 0; 41; udp / 256; udp mod 256; 0; 0; 0; 0; 0; 0]) with 11; lia).
+      rewrite patch16_app by (fold st; rewrite ?mlen_app; change (mlen [0; 0; 41; x / 256; x mod 256; y / 256; y mod 256; z / 256; z mod 256; 0; 0]) with 11; lia).
       fold st. replace (st + 9 - st) with 9 by lia. reflexivity. }
     unfold set_buf; cbn [w_buf w_shim w_static w_tree w_hash].
     split; [|split].
     + destruct HW5 as (T5 & S5 & C5). split; [exact T5|]. split; [exact S5|].
       eapply CInv_weaken; [|exact C5]. unfold old. cbv beta. tauto.
-    + rewrite B5. set (m := w_buf w ++ [0] ++ (be16 41 ++ be16 udp ++ be32 0 ++ be16 len) ++ opts_bytes opts).
+    + rewrite B5. set (m := w_buf w ++ [0] ++ (be16 41 ++ be16 x ++ (be16 y ++ be16 z) ++ be16 len) ++ opts_bytes opts).
       assert (Lm : mlen m = st + 11 + len).
-      { subst m. rewrite !mlen_app. change (mlen [0]) with 1. change (mlen (be16 41)) with 2. change (mlen (be16 udp)) with 2.
-        change (mlen (be32 0)) with 4. change (mlen (be16 len)) with 2. fold st. fold len. lia. }
+      { subst m. rewrite !mlen_app. change (mlen [0]) with 1. change (mlen (be16 41)) with 2. change (mlen (be16 x)) with 2.
+        change (mlen (be16 y)) with 2. change (mlen (be16 z)) with 2. change (mlen (be16 len)) with 2. fold st. fold len. lia. }
       exists (st + 1). cbn [opt_record r_owner r_type r_class r_ttl r_data].
+      fold x. replace (oh_ext oh * 16777216 + oh_ver oh * 65536 + (if oh_do oh then 32768 else 0)) with (oh_ext oh * 16777216 + oh_ver oh * 65536 + z) by reflexivity.
+      rewrite (be32_opt_ttl _ _ _ Hext Hver Hz). fold y.
       replace (mlen m - (st + 1 + 10)) with len by lia.
       split; [|split; [|split; [|split; [lia|split; [lia|split; [|exact L]]]]]].
       * exists []. split; [|split; [reflexivity|exact name_ok_root]].
         constructor; [unfold okb; lia|]. subst m. rewrite get_app_r by (fold st; lia). fold st.
         replace (st - st) with 0 by lia. reflexivity.
       * split; [|split; [unfold okb; intros i Hi; rewrite !mlen_app in Hi;
-                          change (mlen (be16 41)) with 2 in Hi; change (mlen (be16 udp)) with 2 in Hi;
-                          change (mlen (be32 0)) with 4 in Hi; change (mlen (be16 len)) with 2 in Hi; lia|]].
+                          change (mlen (be16 41)) with 2 in Hi; change (mlen (be16 x)) with 2 in Hi;
+                          change (mlen (be16 y)) with 2 in Hi; change (mlen (be16 z)) with 2 in Hi; change (mlen (be16 len)) with 2 in Hi; lia|]].
         -- subst m. replace (st + 1) with (mlen (w_buf w ++ [0])) by (rewrite mlen_app; reflexivity).
            rewrite (app_assoc (w_buf w) [0]). apply bytes_at_app.
-        -- rewrite !mlen_app. change (mlen (be16 41)) with 2. change (mlen (be16 udp)) with 2.
-           change (mlen (be32 0)) with 4. change (mlen (be16 len)) with 2. lia.
+        -- rewrite !mlen_app. change (mlen (be16 41)) with 2. change (mlen (be16 x)) with 2.
+           change (mlen (be16 y)) with 2. change (mlen (be16 z)) with 2. change (mlen (be16 len)) with 2. lia.
       * replace (st + 1 + 10) with (st + 11) by lia. apply II_bytes.
         -- split; [|split; [unfold okb; fold len; intros; lia|fold len; lia]].
-           subst m. replace (st + 11) with (mlen (w_buf w ++ [0] ++ (be16 41 ++ be16 udp ++ be32 0 ++ be16 len)))
+           subst m. replace (st + 11) with (mlen (w_buf w ++ [0] ++ (be16 41 ++ be16 x ++ (be16 y ++ be16 z) ++ be16 len)))
              by (rewrite !mlen_app; reflexivity).
            rewrite (app_assoc (w_buf w)). rewrite (app_assoc (w_buf w ++ [0])). rewrite <- (app_assoc (w_buf w)).
-           pose proof (bytes_at_app (w_buf w ++ [0] ++ be16 41 ++ be16 udp ++ be32 0 ++ be16 len) (opts_bytes opts) []) as X.
+           pose proof (bytes_at_app (w_buf w ++ [0] ++ be16 41 ++ be16 x ++ (be16 y ++ be16 z) ++ be16 len) (opts_bytes opts) []) as X.
            rewrite app_nil_r in X. exact X.
         -- fold len. rewrite <- Lm. constructor.
       * unfold wf_r; cbn [opt_record r_owner r_type r_class r_ttl r_data].
-        split; [exact name_ok_root|]. split; [lia|]. split; [exact Hu|]. split; [lia|]. constructor; [exact I|constructor].
+        split; [exact name_ok_root|]. split; [lia|]. split; [exact Hu|]. split; [subst z; destruct (oh_do oh); lia|].
+        constructor; [exact I|constructor].
     + rewrite B5. eexists; reflexivity.
   - destruct (truncate c (mlen (w_buf w2)) w4); discriminate.
 Qed.
